@@ -25,6 +25,8 @@ type c11Case struct {
 	// Via (pp only): how pp gets the stream. 0: standard input; 1: a named pipe given as the
 	// FILE argument; 2: "/dev/stdin" given as the FILE argument.
 	Via int `json:",omitempty"`
+	// Flags (pp only): the rendering flags of the session; empty means -no-color.
+	Flags []string `json:",omitempty"`
 }
 
 // layout is the ground truth geometry of a stream.
@@ -303,6 +305,9 @@ func readExactly(r io.Reader, nbytes int, d time.Duration) ([]byte, error) {
 
 func c11PPOnce(c c11Case, limit time.Duration) error {
 	args := []string{"-no-color", "-rebase=false"}
+	if len(c.Flags) > 0 {
+		args = append(append([]string{}, c.Flags...), "-rebase=false")
+	}
 	if c.HTML {
 		hf, err := os.CreateTemp(os.Getenv("VERIF_WORK"), "live*.html")
 		if err != nil {
@@ -492,6 +497,9 @@ var c11PP = Check[c11Case]{
 		o.Dump.LongLines = false
 		s := genStream(t, o)
 		c := c11Case{S: s, Pieces: alignPieces(t, &s, genPieces(t, len(s.Bytes()))), HTML: oneIn(t, 4, "html")}
+		if oneIn(t, 3, "otherFlags") {
+			c.Flags = rapid.SampledFrom([][]string{{"-force-color"}, {"-no-color", "-full-path"}, {"-no-color", "-aggressive"}, {"-force-color", "-full-path"}, {"-no-color", "-parse=false"}}).Draw(t, "flags")
+		}
 		if oneIn(t, 3, "viaFileArgument") {
 			c.Via = rapid.IntRange(1, 2).Draw(t, "via")
 		}
